@@ -402,6 +402,9 @@ async fn drive(case: &DCase, p: &Params, addr: &str, node: &Node, admin: &iggy::
     // (the After(..) modes are carried out by the consumer_ext helpers after the application's handler ran;
     // a consumer used as a plain stream never commits in these modes, like Disabled)
     let by_design_static = case.polling % 3 == 2 || (case.polling % 3 == 0 && matches!(mode, AutoCommit::Disabled | AutoCommit::After(_)));
+    // commit-when-polling is at-most-once by design: what a dropped instance had fetched (and thereby
+    // committed) but not yet yielded is skipped by its successor
+    let by_design_static = by_design_static || (matches!(mode, AutoCommit::When(AutoCommitWhen::PollingMessages)) && !case.stops.is_empty());
     if by_design_static {
         out.label("static-polling-by-design");
     }
